@@ -290,6 +290,7 @@ CO_ERR COSdoUploadExpedited(CO_SDO *srv)
     if (size == 0) {
         return (result);
     } else if (size <= 4) {
+        (void)COObjReset(srv->Obj, srv->Node, 0);
         err = COObjRdValue(srv->Obj, srv->Node, (void *)&data, (uint8_t)size);
         if (err != CO_ERR_NONE) {
             if (srv->Abort > 0) {
@@ -331,6 +332,7 @@ CO_ERR COSdoDownloadExpedited(CO_SDO *srv)
     size = COSdoGetSize(srv, width, true);
     if ((size > 0) && (size <= 4)) {
         data   = CO_GET_LONG(srv->Frm, 4);
+        (void)COObjReset(srv->Obj, srv->Node, 0);
         err    = COObjWrValue(srv->Obj, srv->Node, (void*)&data, (uint8_t)size);
         if (err != CO_ERR_NONE) {
             if (srv->Abort > 0) {
@@ -485,8 +487,8 @@ CO_ERR COSdoInitDownloadSegmented(CO_SDO *srv)
         srv->Buf.Num  = 0;
 
         if (size <= 4) {
-            /* no action for basic type entry */
-            result = CO_ERR_NONE;
+            /* basic type entry: restart at the begin of the object only */
+            result = COObjReset(srv->Obj, srv->Node, 0);
         } else {
             result = COObjWrBufStart(srv->Obj, srv->Node, srv->Buf.Cur, 0);
         }
@@ -614,8 +616,8 @@ CO_ERR COSdoInitDownloadBlock(CO_SDO *srv)
         CO_SET_LONG(srv->Frm, (uint32_t)CO_SDO_BUF_SEG, 4);
         
         if (size <= 4) {
-            /* no action for basic type entry */
-            result = CO_ERR_NONE;
+            /* basic type entry: restart at the begin of the object only */
+            result = COObjReset(srv->Obj, srv->Node, 0);
         } else {
             result = COObjWrBufStart(srv->Obj, srv->Node, srv->Buf.Cur, 0);
         }
@@ -791,8 +793,8 @@ CO_ERR COSdoInitUploadBlock(CO_SDO *srv)
     srv->Buf.Num       = 0;
 
     if (size <= 4) {
-        /* no action for basic type entry */
-        err = CO_ERR_NONE;
+        /* basic type entry: restart at the begin of the object only */
+        err = COObjReset(srv->Obj, srv->Node, 0);
     } else {
         err = COObjRdBufStart(srv->Obj, srv->Node, srv->Buf.Cur, 0);
     }
